@@ -12,6 +12,8 @@ mod posix;
 mod read;
 mod sdlib;
 mod shared;
+#[cfg(aranya_core_verif)]
+pub mod verif_sites;
 mod tests;
 mod write;
 
